@@ -763,7 +763,10 @@ func (st *state) applyDefaults(instancep reflect.Value, schema *Schema) (err err
 					var child reflect.Value
 					switch elemType.Kind() {
 					case reflect.Interface:
-						child = reflect.ValueOf(map[string]any{})
+						// Only the empty interface can hold a map[string]any.
+						if elemType.NumMethod() == 0 {
+							child = reflect.ValueOf(map[string]any{})
+						}
 					case reflect.Map:
 						child = reflect.MakeMap(elemType)
 					case reflect.Struct:
